@@ -1104,7 +1104,13 @@ func (f *fnTrans) ghostSet(env *Env, loc, src string) {
 }
 
 // trailingZeros: a number k such that v is certainly a multiple of 2^k (0 if unknown).
-func trailingZeros(v ssa.Value) int {
+func trailingZeros(v ssa.Value) int { return trailingZerosD(v, 0) }
+
+func trailingZerosD(v ssa.Value, depth int) int {
+	if depth > 8 {
+		return 0 // give up (also cuts cycles through loop phis)
+	}
+	trailingZeros := func(v ssa.Value) int { return trailingZerosD(v, depth+1) }
 	switch x := v.(type) {
 	case *ssa.Const:
 		if c, ok := constInt(x); ok && c.Sign() > 0 {
